@@ -375,6 +375,14 @@ CASES += [
         for m in m.assignment_iter() {
             bdd = self.cond_with_alloc(bdd, m.label(), m.polarity(), &mut cache);
         }"""),
+    dict(name="sl-decision-node-same-child-twice", file=B, rule="SL", props=["C08", "C19"], expect="node-var",
+         old="""                    self.smooth_helper(node.high, current + 1, total),""",
+         new="""                    self.smooth_helper(node.low, current + 1, total),"""),
+    dict(name="sl-base-case-mirrored-comparison-ok", file=B, rule="SL", props=["C08", "C19"], expect=None,
+         old="""        if current >= total {
+            return bdd;""",
+         new="""        if total <= current {
+            return bdd;"""),
     dict(name="sl3-false-shortcut", file=B, rule="SL", props=["C08", "C19"], expect="return-as-is",
          old="""            BddPtr::Reg(_) | BddPtr::PtrTrue | BddPtr::PtrFalse => {""",
          new="""            BddPtr::PtrFalse => bdd,
